@@ -104,6 +104,7 @@ func NewChildExecutionContext(parent *ExecutionContext) *ExecutionContext {
 
 	// Copy all existing private items
 	newctx.Private.Update(parent.Private)
+	verifEv("Push", len(newctx.Private), 0, 0, 0, "", "", parent)
 
 	return newctx
 }
